@@ -108,9 +108,15 @@ def design(prog, rep):
         lo, hi = abstract_extrema(py[1][0]), abstract_extrema(py[1][1])
         mn, mx = ("sym", "miny"), ("sym", "maxy")
         for c in (0.1, 0.05, 0.2, 0.5, 1.0):
+            # the margin must be positive whatever the sign of the ordinates: a fraction of the ordinate RANGE, or of an absolute value
+            for M in (("bin", "*", ("bin", "-", mx, mn), ("const", c)), ("bin", "*", ("call", G("numpy.abs"), (mx,), ()), ("const", c)),
+                      ("bin", "*", ("call", G("abs"), (mx,), ()), ("const", c))):
+                if algebra.same(lo, ("bin", "-", mn, M)) and algebra.same(hi, ("bin", "+", mx, M)):
+                    oky = True
             if algebra.same(lo, ("bin", "-", mn, ("bin", "*", mx, ("const", c)))) and algebra.same(hi, ("bin", "+", mx, ("bin", "*", mx, ("const", c)))):
-                oky = True
-    rep.check(oky, "C17.probe", f"{q}:span", site, "probe ordinates [min(y1) - c max(y1), max(y1) + c max(y1)]", why)
+                why = ("the probe ends are min(y1) - c*max(y1) and max(y1) + c*max(y1): for a contour whose ordinates are all negative the margin is negative, the "
+                       "probe is SHORTER than the contour at both ends and the top crossing is lost (the square [[0,-3],[2,-3],[2,-1],[0,-1]] probed at 1.0 returns nothing)")
+    rep.check(oky, "C17.probe", f"{q}:span", site, "probe ordinates [min(y1) - m, max(y1) + m] with a margin m >= 0 for every contour", why)
     # result
     ys = IT(t, 1)
     xs_ = IT(t, 0)
